@@ -37,6 +37,7 @@ type ChainCfg struct {
 	CustomErr  bool    `json:"custom_service_error_handler"`
 	Flusher    bool    `json:"writer_is_flusher"`
 	Trace      bool    `json:"trace"`
+	LateConfig bool    `json:"container_configured_after_registration"`
 	Pretty     bool    `json:"pretty"`
 	CF         []FSpec `json:"container_filters"`
 	SF         []FSpec `json:"service_filters"`
@@ -356,34 +357,44 @@ func (e *chainEnv) build(encOff bool) (c *restful.Container, outer *restful.Cont
 	// registration happens under one setting of the switch, serving under the final one: nothing may
 	// remember the value it saw at registration time
 	c.EnableContentEncoding(cfg.ContEncReg && !encOff)
-	c.DoNotRecover(cfg.Recover == 0)
-	if cfg.Recover == 2 {
-		c.RecoverHandler(func(v interface{}, w http.ResponseWriter) {
-			_, res := e.res()
-			y(sim.SiteRecover)
-			e.ev("recover")
-			res.Recovers++
-			res.RecVal = fmt.Sprint(v)
-			w.WriteHeader(503)
-			e.appWrite(w, []byte("recovered:"+fmt.Sprint(v)))
-		})
-	}
-	if cfg.CustomErr {
-		c.ServiceErrorHandler(func(se restful.ServiceError, req *restful.Request, resp *restful.Response) {
-			e.checkReq(req.Request)
-			y(sim.SiteSvcErr)
-			e.ev("svcerr")
-			for h, vs := range se.Header {
-				for _, v := range vs {
-					resp.Header().Add(h, v)
+	// the container-level settings (recovery, handlers, container filters) may be applied before or
+	// after services and plain handlers are registered: both are "before serving", and nothing may
+	// capture the value a setting had at registration time
+	configure := func() {
+		c.DoNotRecover(cfg.Recover == 0)
+		if cfg.Recover == 2 {
+			c.RecoverHandler(func(v interface{}, w http.ResponseWriter) {
+				_, res := e.res()
+				y(sim.SiteRecover)
+				e.ev("recover")
+				res.Recovers++
+				res.RecVal = fmt.Sprint(v)
+				w.WriteHeader(503)
+				e.appWrite(w, []byte("recovered:"+fmt.Sprint(v)))
+			})
+		}
+		if cfg.CustomErr {
+			c.ServiceErrorHandler(func(se restful.ServiceError, req *restful.Request, resp *restful.Response) {
+				e.checkReq(req.Request)
+				y(sim.SiteSvcErr)
+				e.ev("svcerr")
+				for h, vs := range se.Header {
+					for _, v := range vs {
+						resp.Header().Add(h, v)
+					}
 				}
-			}
-			resp.WriteHeader(se.Code)
-			e.appWrite(resp, []byte(fmt.Sprintf("custom-error:%d", se.Code)))
-		})
+				resp.WriteHeader(se.Code)
+				e.appWrite(resp, []byte(fmt.Sprintf("custom-error:%d", se.Code)))
+			})
+		}
+		for _, f := range cfg.CF {
+			c.Filter(e.filter(f))
+		}
 	}
-	for _, f := range cfg.CF {
-		c.Filter(e.filter(f))
+	if cfg.LateConfig {
+		c.DoNotRecover(cfg.Recover != 0) // the opposite setting while registering
+	} else {
+		configure()
 	}
 	ws := new(restful.WebService).Path("/svc").Produces("application/json")
 	for _, f := range cfg.SF {
@@ -421,6 +432,9 @@ func (e *chainEnv) build(encOff bool) (c *restful.Container, outer *restful.Cont
 	c.Handle("/plain/", e.plainHandler("plain"))
 	c.HandleWithFilter("/plainf/", e.plainHandler("plainf"))
 	c.EnableContentEncoding(cfg.ContEnc && !encOff)
+	if cfg.LateConfig {
+		configure()
+	}
 	if cfg.Entry == "Nested" || cfg.Entry == "NestedFilter" {
 		outer = restful.NewContainer()
 		outer.EnableContentEncoding(!encOff)
@@ -651,6 +665,7 @@ func genChainCfg(tp *sim.Tape, k chainKnobs) *ChainCfg {
 	cfg.CustomErr = tp.Bool()
 	cfg.Flusher = tp.Bool()
 	cfg.Trace = tp.Chance(300)
+	cfg.LateConfig = tp.Chance(300)
 	cfg.Pretty = true
 	ncf := k.maxFilters
 	if k.maxCF > 0 {
